@@ -579,3 +579,20 @@ def tiny_fee_transfer(rng: random.Random, asset: str = "AAA") -> Dict[str, Any]:
         b.move(t + timedelta(days=3), 1, Decimal(1) - Decimal("0.001"), "0.004", (EXCHANGES[0], ho), (EXCHANGES[1], ho))  # an ordinary fee next to it
     b.dispose(t + timedelta(days=rng.randint(5, 400)), rng.choice((1, 2)), rng.choice(("0.006", "0.01")))
     return b.done(rng, shuffle=rng.random() < 0.5)
+
+
+def understated_total_empties_account(rng: random.Random, asset: str = "AAA") -> Dict[str, Any]:
+    """The disposal that empties the asset's only funded account carries an exchange-supplied crypto_out_with_fee smaller than
+    amount + fee: the account ends at exactly zero (a valid history, no -n needed) while part of a lot stays unsold. The asset has
+    no open position to list, and its left-over lot cost must not count in the portfolio either (FX7)."""
+    b = HB(asset=asset, exchanges=EXCHANGES[:2], holders=HOLDERS[:1])
+    t = T(rng.randint(2016, 2022), rng.randint(1, 12), rng.randint(1, 28))
+    bought = Decimal(rng.choice((10, 4, "2.5")))
+    b.acquire(t, bought, rng.randint(50, 500))
+    if rng.random() < 0.5:
+        t += timedelta(days=rng.randint(1, 100))
+        b.dispose(t, bought / 4, rng.randint(50, 500))
+        bought -= bought / 4
+    fee = Decimal(rng.choice(("0", "0.1")))
+    b.dispose(t + timedelta(days=rng.randint(5, 400)), bought, rng.randint(50, 500), cfee=fee, cout_wf=dstr(bought - Decimal(rng.choice(("0.5", "0.001", "1")))))
+    return b.done(rng)
